@@ -56,6 +56,23 @@ func Dominates(a, b ssa.Instruction) bool {
 // Callee returns the static callee of a call instruction (following closures made in the same
 // function: `t1 = make closure f$1 [...]; t1()` and `defer t1()`), or nil.
 func Callee(c ssa.CallInstruction) *ssa.Function {
+	// a nil *ssa.Call (a failed type assertion handed on) has no callee
+	switch x := c.(type) {
+	case nil:
+		return nil
+	case *ssa.Call:
+		if x == nil {
+			return nil
+		}
+	case *ssa.Go:
+		if x == nil {
+			return nil
+		}
+	case *ssa.Defer:
+		if x == nil {
+			return nil
+		}
+	}
 	cc := c.Common()
 	if cc.IsInvoke() {
 		return nil
